@@ -78,7 +78,7 @@ MANIFEST = {
              "one, every accepted message is there as one complete frame sequence; after a disagreement the schedule goes on implementation-only so that the oracle can produce a failing input. End-to-end part: real nbhttp engines (IOModNonBlocking, IOModBlocking, IOModMixed) and net/http servers with the real Upgrader in the paths poller-driven, blocking with the "
              "engine's parser loop, blocking with HandleRead, transferred to the poller (from a blocking engine and from net/http), epoll LT / ET / ET+ONESHOT, direct and queued writes, "
              "MaxWebsocketFramePayloadSize 64..4096; per connection up to 10 goroutines x up to 80 messages of up to 8 fragments through WriteMessage / WriteFrame, echoes and pongs "
-             "written from callbacks, client messages in random fragments and TCP segments, slow handlers; endings: close frame, abrupt disconnect (idle / during a handler / during the "
+             "written from callbacks, client messages in random fragments and TCP segments, slow handlers, on poller-driven connections a message handler that panics once (the callbacks behind it and the close callback must still run); endings: close frame, abrupt disconnect (idle / during a handler / during the "
              "writes), Close from another goroutine, Engine.Stop (idle / during a handler / during the open handler); in every cell two connections send the handshake request and their first frame(s) in one write (valid message, a frame that fails Parse - over MessageLengthLimit, reserved bit, reserved opcode -, unmasked frame, close frame, more messages behind) or break off around the hand-over from the HTTP parser (refused handshake, hang-up right after the request): a connection whose open callback ran must get its close callback exactly once (close-missing-after-early-parse-error-<path>), a refused handshake must not open. Client tier: a real websocket.Dialer on its own engine (synchronous Dial / asynchronous Dial with a result handler, client engine LT / ET / ET+ONESHOT, open handler fast or 50-200 ms) against a server that greets from its open handler (1-3 messages and possibly a ping right behind the 101 answer, a second batch, then server close / client close / close frame): the open callback of the client connection completes before any message / ping / close callback, callbacks never overlap, wire order, close once and last (signatures client-<class>/<sync|async>, also emitted for C05). Oracles: every message arrives as one uninterrupted frame sequence, once per writer and "
              "sequence number, in per-writer order, none lost before the end marker; open completed before the first message callback, callbacks one at a time in wire order, close "
              "exactly once and after the last message callback.",
